@@ -129,6 +129,27 @@ def _calibrate(W, S, DENS, rr):
         raise Inconclusive('roll no longer keeps (counter, ring of window starts) the way this one-step harness presets it')
 
 
+def _calibrate_count(W, c):
+    """the tumbling one-step form presets state 0 with the number of items already in the current window; checked against the real operator run for c items"""
+    import rxsci as rs
+    from rx.subject import Subject
+    from vp.harness import Inconclusive
+    try:
+        store = rs.state.StoreManager(store_factory=rs.state.MemoryStore)
+        src = Subject()
+        src.pipe(rs.cast_as_mux_observable(), rs.state.with_store(store, [rs.data.roll(W, W, [rs.ops.identity()])])).subscribe(on_error=lambda e: None)
+        src.on_next(rs.OnCreateMux((0,), store=store))
+        ok = True
+        for j in range(c + 1):
+            if store.get_state(0, (0,)) != j % W:
+                ok = False
+            src.on_next(rs.OnNextMux((0,), j, store=store))
+    except Exception:
+        ok = False
+    if not ok:
+        raise Inconclusive('tumbling roll no longer keeps the in-window item count in state 0 the way this one-step harness presets it')
+
+
 def step(p):
     """One event on roll_mux from the state the invariant prescribes for an arbitrary item counter n = q*P + r
     (P = stride * ceil(window/stride) = one turn of the slot ring; q >= 0 symbolic and unbounded, r concretised by cascade):
@@ -149,6 +170,18 @@ def step(p):
             if r == c:
                 rr = c
         n = q * P + rr
+        _calibrate(W, S, DENS, rr)
+        try:
+            ok, detail = judge(q, rr, n, x)
+        except harness.Inconclusive:
+            raise
+        except Exception as e:      # the preset or the event raised: judged like any other deviation, i.e. only believed if it shows through the public API
+            ok, detail = False, dict(w=W, s=S, n=n, event=event, exception=repr(e))
+        if not ok and harness.CONCRETE[0]:
+            _confirm_public(W, S, n, x, event)
+        return ok or fail(**detail)
+
+    def judge(q, rr, n, x):
         store = rs.state.StoreManager(store_factory=rs.state.MemoryStore)
         events = []
         src = Subject()
@@ -168,7 +201,6 @@ def step(p):
                 store.set_state(1, (slot, (0,)), start)
                 exp_open.append((slot, start))
         del events[:]
-        _calibrate(W, S, DENS, rr)
         if event == 'next':
             src.on_next(rs.OnNextMux((0,), x, store=store))
             exp = []
@@ -190,18 +222,14 @@ def step(p):
             for slot in range(DENS):
                 if store.get_state(1, (slot, (0,))) != after.get(slot, -1):
                     ok = False
-            if not ok and harness.CONCRETE[0]:
-                _confirm_public(W, S, n, x, 'next')
-            return ok or fail(w=W, s=S, n=n, observed=events, expected=exp, counter_after=store.get_state(0, (0,)))
+            return ok, dict(w=W, s=S, n=n, observed=events, expected=exp, counter_after=store.get_state(0, (0,)))
         src.on_next(rs.OnCompletedMux((0,), store=store))
         exp = [('d', slot) for (slot, st) in exp_open]      # exp_open is built in increasing start order = opening order
         ok = events == exp
         for slot in range(DENS):
             if store.get_state(1, (slot, (0,))) != -1:
                 ok = False
-        if not ok and harness.CONCRETE[0]:
-            _confirm_public(W, S, n, x, 'complete')
-        return ok or fail(w=W, s=S, n=n, event='complete', observed=events, expected=exp)
+        return ok, dict(w=W, s=S, n=n, event='complete', observed=events, expected=exp)
     return mk('roll_step', [('q', 'int'), ('r', 'int'), ('x', 'int')], ['q >= 0', '0 <= r < %d' % P, '-2**40 <= x <= 2**40'], body)
 
 
@@ -219,6 +247,18 @@ def step_count(p):
         for k in range(W):
             if c0 == k:
                 c = k
+        _calibrate_count(W, c)
+        try:
+            ok, detail = judge(c, x)
+        except harness.Inconclusive:
+            raise
+        except Exception as e:
+            ok, detail = False, dict(w=W, count=c, event=event, exception=repr(e))
+        if not ok and harness.CONCRETE[0]:
+            _confirm_public(W, W, c, x, event)
+        return ok or fail(**detail)
+
+    def judge(c, x):
         store = rs.state.StoreManager(store_factory=rs.state.MemoryStore)
         events = []
         src = Subject()
@@ -232,15 +272,11 @@ def step_count(p):
             exp = ([('c', 0)] if c == 0 else []) + [('n', x)] + ([('d', 0)] if c + 1 == W else [])
             want = 0 if c + 1 == W else c + 1
             ok = events == exp and store.get_state(0, (0,)) == want
-            if not ok and harness.CONCRETE[0]:
-                _confirm_public(W, W, c, x, 'next')
-            return ok or fail(w=W, count=c, observed=events, expected=exp, count_after=store.get_state(0, (0,)))
+            return ok, dict(w=W, count=c, observed=events, expected=exp, count_after=store.get_state(0, (0,)))
         src.on_next(rs.OnCompletedMux((0,), store=store))
         exp = [('d', 0)] if c > 0 else []
         ok = events == exp
-        if not ok and harness.CONCRETE[0]:
-            _confirm_public(W, W, c, x, 'complete')
-        return ok or fail(w=W, count=c, event='complete', observed=events, expected=exp)
+        return ok, dict(w=W, count=c, event='complete', observed=events, expected=exp)
     return mk('roll_step_count', [('c0', 'int'), ('x', 'int')], ['0 <= c0 < %d' % W, '-2**40 <= x <= 2**40'], body)
 
 
